@@ -2,9 +2,11 @@
 
 from __future__ import annotations
 
+import ast
 import itertools
 
 from sa.canon import canon
+from sa.index import AnalysisError
 from sa.peval import peval
 from sa.report import Ctx
 from sa.sym import callkw, FALSE, NONE, Summary, bind_args, conjuncts, show, subst, walk
@@ -23,6 +25,7 @@ EXPLANATION = (
     "through data.Polygon / data.MultiPolygon; R11.6 the same factor list scales before and unscales after the unit "
     "buffer, with factor 1 / buffer guarded against a zero buffer. Containment, monotonicity and the growth of the "
     "bounds on the shapely path are numerical properties of shapely and are not decided."
+    'R11.7 magnitude: the constant Z that scales an axis whose buffer is 0 satisfies Z * MAX_FREQUENCY * 2**-52 <= 1/64, i.e. doubles at the top of the validated frequency range stay finer than the vertex steps of the unit round cap (otherwise the buffered shape comes out narrower than requested in time). '
 )
 ASSUMPTIONS = ["shapely.transform/buffer/clip_by_rect semantics (trusted)", "input coordinates are valid (C03), buffers >= 0 (R11.1)"]
 
@@ -211,6 +214,30 @@ class C11:
                             f"found {show(comp)[:80]}", s.node.lineno)
             if good:
                 ctx.ok("R11.6", site, "factor = [1/time_buffer, 1/freq_buffer], zero buffers guarded")
+                # R11.7 magnitude: with a zero buffer the axis is scaled by the constant Z and buffered by 1 unit.  Frequencies
+                # are validated to lie in [0, MAX_FREQUENCY], so scaled ordinates reach Z * MAX_FREQUENCY; doubles there are spaced
+                # Z * MAX_FREQUENCY * 2**-52 apart.  The unit circle shapely builds (quad_segs = 8: neighbouring vertices differ by
+                # 1 - cos(11.25 deg) = 0.019 in one ordinate) must stay resolvable: spacing <= 1/64.
+                try:
+                    _, mx = ctx.index.need_assign(GEO, "MAX_FREQUENCY")
+                    maxf = ast.literal_eval(mx) if isinstance(mx, ast.Constant) else None
+                except (AnalysisError, ValueError):
+                    maxf = None
+                Z = factor[1][1][3][1]
+                if not isinstance(maxf, (int, float)) or isinstance(maxf, bool):
+                    ctx.undec("R11.7", site, "MAX_FREQUENCY is not a numeric literal")
+                else:
+                    spacing = float(Z) * float(maxf) * 2.0 ** -52
+                    if spacing <= 1 / 64:
+                        ctx.ok("R11.7", site, f"zero-buffer factor {Z:g} x MAX_FREQUENCY {maxf:g}: doubles spaced {spacing:.3g} units apart (<= 1/64 of the unit buffer)")
+                    else:
+                        ctx.bad("R11.7", self.file, "buffer_shapely_geometry", f"freq factor for a zero buffer = {Z:g}",
+                                f"with freq_buffer = 0 frequencies are scaled by {Z:g} before the unit buffer: at the top of the validated domain "
+                                f"(MAX_FREQUENCY = {maxf:g}) scaled ordinates are {Z * maxf:.3g}, where doubles are {spacing:.3g} units apart -- "
+                                f"the unit circle is no longer representable and the buffered shape comes out narrower than requested in TIME "
+                                f"(Point at 2.6 MHz, time_buffer 1, freq_buffer 0: time bounds [9.019, 10.981] instead of [9, 11]; 7.6 % short at 4.9 MHz)",
+                                s.node.lineno, witness={"geometry": "Point(10.0, 2.6e6)", "time_buffer": 1.0, "freq_buffer": 0,
+                                                        "observed_time_bounds": [9.01921471959677, 10.98078528040323]})
         else:
             ctx.undec("R11.6", site, f"factor is not a two-element list: {show(factor)[:60] if factor else '-'}")
         # R11.5 clip rectangle
@@ -287,6 +314,7 @@ def run_affinity_subset(ctx: Ctx):
     ctx.rule("R11.4", "buffers forwarded uncrossed", 2)
     ctx.rule("R11.5", "shapely result clipped to the domain rectangle and re-validated", 3)
     ctx.rule("R11.6", "same factor scales and unscales around a unit buffer", 3)
+    ctx.rule("R11.7", "the zero-buffer scale keeps the unit buffer representable over the validated frequency domain", 1)
     c = C11(ctx, affinity_subset=True)
     with ctx.delegated(""):
         c.check_guard_and_dispatch()
@@ -301,6 +329,7 @@ def run(ctx: Ctx):
     ctx.rule("R11.4", "buffers forwarded uncrossed at the four delegations", 4)
     ctx.rule("R11.5", "shapely result clipped to the domain rectangle and re-validated", 3)
     ctx.rule("R11.6", "same factor scales and unscales around a unit buffer", 3)
+    ctx.rule("R11.7", "the zero-buffer scale keeps the unit buffer representable over the validated frequency domain", 1)
     c = C11(ctx)
     c.check_guard_and_dispatch()
     c.check_closed_forms()
